@@ -262,6 +262,18 @@ def eval_case(c):
                     d = float(np.max(np.abs(x[0] - y[0])) / SC)
                     if not d <= 20 * e * e + 1e-13:
                         V(f'low-vs-medium-eccentricity-{name}', f'{name} vs medium-e variant: |dU|/scale = {d:.3e} at e={e} exceeds the second-order bound {20*e*e:.1e} at {p}')
+                    # the same limit at an exact spin-orbit commensurability (use_static=False drops the zero-frequency modes in both variants; the modes
+                    # the medium-e variant drops in addition are of second order in e), for the mode sum and for every mode the two variants share
+                    for ratio in (1.0, 1.5, 0.5, 2.0, -1.0):
+                        oc = p['n'] * ratio
+                        outx, outy = call(name, *a(e, p['I'], o=oc)), call('nsr_modes_med_eccen_gen_obliquity', *a(e, p['I'], o=oc))
+                        tx = sum(np.asarray(v[0], dtype=float) for v in outx[2].values())
+                        ty = sum(np.asarray(v[0], dtype=float) for v in outy[2].values())
+                        dc = float(np.max(np.abs(tx - ty)) / SC)
+                        worstm = max([float(np.max(np.abs(np.asarray(outx[2][k][0], dtype=float) - np.asarray(outy[2][k][0], dtype=float))) / SC) for k in outx[2] if k in outy[2]] + [0.0])
+                        if not (dc <= 20 * e * e + 1e-13 and worstm <= 20 * e * e + 1e-13):
+                            V(f'low-vs-medium-eccentricity-{name}', f'{name} vs medium-e variant at spin/n = {ratio}: |dU|/scale = {dc:.3e} (mode sum), {worstm:.3e} (worst shared mode) at e={e} exceeds the second-order bound {20*e*e:.1e} at {p}')
+                            break
             if name == 'synchronous_low_e':
                 for e in (0.01, 0.001):
                     x, _ = total(name, *a(e, 0.0))
